@@ -24,7 +24,7 @@ RULE = ("histories: a generated tree (files incl. >16 KiB and equal contents, em
         "dangling/non-UTF-8 targets, hard links, FIFOs, char/block devices, sockets, modes incl. setuid/sticky/0, names with "
         "blanks, quotes, newlines, non-UTF-8 bytes, sort-order traps like 'a' 'a.b' 'a-b' 'a0', .git/.svn/.portage-cache as "
         "directory and as file, BaseDirList.txt as file and as directory) followed by 8-14 steps drawn from create / rewrite / "
-        "same-size rewrite / append / chmod / delete / rename / swap / type replacement file<->dir<->symlink<->fifo / retarget / "
+        "same-size rewrite / same-size rewrite in place with the old mtime restored / append / chmod / delete / rename / swap / type replacement file<->dir<->symlink<->fifo / retarget / "
         "hard link / utime / chown / no-op, each optionally preceded by a manipulation of cache.bin. A case is one step of one "
         "history (distinct by canonical tree + old index bytes), non-trivial if the tree has at least one indexed entry.")
 ASSUMPTIONS = [
@@ -408,6 +408,13 @@ def read_file(root, p):
         return f.read()
 
 
+def keep_mtime_ops(root, p, new):
+    """overwrite file p in place and set its time stamps back (`touch -r` / `touch -d @epoch` after the write)"""
+    st = os.lstat(os.path.join(root, p))
+    return [{"op": "write", "p": hx(p), "data": hx(new)},
+            {"op": "utime", "p": hx(p), "at": st.st_atime_ns, "mt": st.st_mtime_ns}]
+
+
 def gen_step(r, root):
     """one edit of the real tree below root as a list of concrete ops, and its kind"""
     ls = listing(root)
@@ -436,6 +443,9 @@ def gen_step(r, root):
                 continue
             i = r.randrange(len(old)) if r.random() < 0.6 else len(old) - 1
             new = old[:i] + bytes([old[i] ^ (1 << r.randrange(8))]) + old[i + 1:]
+            if i % 3 == 0:
+                # (decided by a draw that exists anyway: the streams of older seeds stay as they were)
+                return keep_mtime_ops(root, p, new), "same-size-rewrite-keep-mtime"
             return [{"op": "write", "p": hx(p), "data": hx(new)}], "same-size-rewrite"
         if k < 0.40 and files:
             return [{"op": "append", "p": hx(r.choice(files)), "data": hx(r.choice([b"x", b"\n", b"\x00", b"tail"]))}], "append"
@@ -508,6 +518,17 @@ def gen_step(r, root):
             # same content written again: the hash stays, the stat data changes
             p = r.choice(files)
             return [{"op": "write", "p": hx(p), "data": hx(read_file(root, p))}], "rewrite-same-content"
+        if k < 0.995 and files:
+            # reproducible-build style: new content of the same size written in place (same inode), time stamp clamped
+            # to what it was before - the ctime is the only stat field that tells the versions apart
+            p = r.choice(files)
+            old = read_file(root, p)
+            if not old:
+                continue
+            j = len(old) - 1
+            c = old[j:j + 1]
+            new = old[:j] + (bytes([c[0] + 1]) if c.isdigit() and c != b"9" else bytes([c[0] ^ 1]))
+            return keep_mtime_ops(root, p, new), "same-size-rewrite-keep-mtime"
         return [{"op": "noop"}], "noop"
     return [{"op": "noop"}], "noop"
 
